@@ -12,7 +12,6 @@ NA = {
     "C05": "Concurrency: Kani has no threads; Verus would require rewriting the locking in its permission types (a different program).",
     "C11": "Concurrency plus scheduling of deferred commits across reader locks (Weak<RwLock<Box<dyn TreeReader>>>, is_locked races); same reason as C05.",
     "C15": "Liveness (every commit returns, shutdown terminates) under all wake-up interleavings; the installed deductive back ends prove partial correctness of sequential code only. The termination fact within reach (lookup chains terminate) is proved under C09.",
-    "C18": "Advisory flock semantics across handles and processes; a ghost 'locked' token would need DbInner::open (OpenOptions, PathBuf, 20-field struct of lock/condvar types) accepted verbatim by Verus -- it is not.",
 }
 
 
